@@ -237,6 +237,22 @@ def run_histories(spec):
             check([rng.choice(allfiles) for _ in range(rng.randint(2, 12 if spec["tier"] == "thorough" else 8))], "random_history")
         u = rng.choice(allfiles)
         check([(name, src), u], "interleaved")
+    # a file close to an internal limit (nesting depth of a constant expression) after files that died half-way
+    # through the same machinery, once and several times: whatever they left behind adds up
+    if spec["shard"] % 4 == 1 or spec["tier"] == "thorough":
+        opens = [("open%d.c" % k, "#if " + "(" * k + "1\n# define X 1\n#endif\n") for k in (30, 50)] + \
+                [("open_fn.c", "int\tf(void)\n{\n\treturn (" + "(" * 40 + "1);\n}\n"), ("open_br.c", "int\tg_a[] = {" + "{" * 40 + "1};\n")]
+        nests = [("nest%d.c" % d, "#if " + "(" * d + "1" + ")" * d + "\n# define Y 1\n#endif\n") for d in (40, 55, 70)] + \
+                [("nest_fn.c", "int\tf(int a)\n{\n\treturn (" + "(" * 60 + "a" + ")" * 60 + ");\n}\n")]
+        nrefs = reference(nests)
+        for (name, src), ref in zip(nests, nrefs):
+            if ref is None:
+                sh.inconclusive.append("no reference observation for %s" % name)
+                continue
+            for o in opens:
+                for reps in (1, 2, 3, 5):
+                    check([o] * reps, "after_repeated_fatal:%s" % o[0])
+            check([opens[0], opens[1], opens[0], opens[2]], "after_repeated_fatal:mixed")
     # sibling pairs: each one analysed right after the other, both ways
     if spec["tier"] == "thorough":
         sib = siblings
